@@ -234,6 +234,7 @@ public:
   void dumpVarDecl(const VarDecl* VD, std::string& o)
   {
     o += "{\"k\":\"Var\"";
+    kvi(o, "id", NextId++);
     kv(o, "name", sname(VD));
     kvi(o, "did", (long long)(uintptr_t)VD->getCanonicalDecl());
     kv(o, "ty", tyStr(VD->getType()));
